@@ -413,10 +413,100 @@ func runChain(r *rand.Rand, dir string) {
 			stop()
 		}
 	}
+	// an S3 bucket as a member: first in a router (it holds half of the chunks), and as the cache
+	{
+		f := fakes.NewFakeS3()
+		for i, c := range idx.Chunks {
+			if i%2 == 0 {
+				b, err := os.ReadFile(filepath.Join(full, c.ID.String()[:4], c.ID.String()+".cacnk"))
+				must(err)
+				f.Put("bkt/st/"+c.ID.String()[:4]+"/"+c.ID.String()+".cacnk", b)
+			}
+		}
+		os.Setenv("S3_ACCESS_KEY", "verif")
+		os.Setenv("S3_SECRET_KEY", "verifverif")
+		os.Setenv("S3_REGION", "us-east-1")
+		s3url := "s3+http://" + f.Addr + "/bkt/st?lookup=path"
+		emit("router: S3 bucket with half of the chunks, then the other half", true, []string{"-s", s3url, "-s", partB}, nil)
+		emit("router: S3 bucket with half of the chunks, then a complete store", true, []string{"-s", s3url, "-s", full}, nil)
+		emit("failover: S3 bucket that lacks chunks | complete store (a missing chunk is not a failure: no failover)", false, []string{"-s", s3url + "|" + full}, nil)
+		f2 := fakes.NewFakeS3()
+		c2 := "s3+http://" + f2.Addr + "/bkt/cache?lookup=path"
+		emit("S3 bucket as cache: filled on the way", true, []string{"-s", full, "-c", c2}, func() bool {
+			for _, c := range fetched.Chunks {
+				if _, ok := f2.Get("bkt/cache/" + c.ID.String()[:4] + "/" + c.ID.String() + ".cacnk"); !ok {
+					return false
+				}
+			}
+			return true
+		})
+		emit("S3 bucket as cache: sufficient on its own afterwards", true, []string{"-s", empty, "-c", c2}, nil)
+		os.Unsetenv("S3_ACCESS_KEY")
+		os.Unsetenv("S3_SECRET_KEY")
+		os.Unsetenv("S3_REGION")
+		f.Close()
+		f2.Close()
+	}
 	sa()
 	sb()
 	sf()
 	sFull()
+}
+
+// ------------------------------------------------------------------------------------------------ ssh
+// casync-protocol stores (ssh://) in the chains the command line builds; the "ssh" binary is a script that runs the remote
+// command (`desync pull`) locally
+func runSSH(r *rand.Rand, dir string) {
+	secs := map[string][]byte{}
+	blob := mkBlob(r, secs, "a b c d a")
+	full := mkdir(filepath.Join(dir, "full"))
+	idx := chunkInto(full, blob)
+	idxFile := filepath.Join(dir, "blob.caibx")
+	writeIndex(idx, idxFile)
+	fst, _ := desync.NewLocalStore(full, desync.StoreOptions{})
+	// a store that holds only every fifth chunk, and one whose 7th chunk is damaged (the remote `pull` fails on it and exits)
+	partial, broken := mkdir(filepath.Join(dir, "partial")), mkdir(filepath.Join(dir, "broken"))
+	pst, _ := desync.NewLocalStore(partial, desync.StoreOptions{})
+	bst, _ := desync.NewLocalStore(broken, desync.StoreOptions{})
+	for i, c := range idx.Chunks {
+		ch, err := fst.GetChunk(c.ID)
+		must(err)
+		if i%5 == 0 {
+			pst.StoreChunk(ch)
+		}
+		bst.StoreChunk(ch)
+	}
+	bad := idx.Chunks[6].ID
+	must(os.WriteFile(filepath.Join(broken, bad.String()[:4], bad.String()+".cacnk"), []byte("damaged object"), 0644))
+	ssh := filepath.Join(dir, "fakessh.sh")
+	must(os.WriteFile(ssh, []byte("#!/bin/sh\nshift\nexec sh -c \"$1\"\n"), 0755))
+	os.Setenv("CASYNC_SSH_PATH", ssh)
+	os.Setenv("CASYNC_REMOTE_PATH", binary)
+	defer os.Unsetenv("CASYNC_SSH_PATH")
+	defer os.Unsetenv("CASYNC_REMOTE_PATH")
+	out := filepath.Join(dir, "out")
+	emit := func(name string, valid bool, args ...string) {
+		os.Remove(out)
+		res := run(append(args, idxFile, out)...)
+		got, _ := os.ReadFile(out)
+		w.Emit(J{"ev": "cli", "fam": "ssh", "cmd": name, "k": 0, "exit": res.exit, "hung": res.hung, "complete": bytes.Equal(got, blob), "valid_inputs": valid, "out": res.last})
+	}
+	emit("extract from an ssh store", true, "extract", "-n", "2", "-s", "ssh://localhost"+full)
+	emit("extract: ssh store that lacks most chunks, then a complete local store", true, "extract", "-n", "2", "-s", "ssh://localhost"+partial, "-s", full)
+	emit("extract: ssh store whose server dies | complete local store", true, "extract", "-n", "2", "-s", "ssh://localhost"+broken+"|"+full)
+	emit("extract: ssh store whose server dies, nothing else", false, "extract", "-n", "2", "-s", "ssh://localhost"+broken)
+	emit("extract: cache over an ssh store that lacks most chunks and a local store", true, "extract", "-n", "2", "-s", "ssh://localhost"+partial, "-s", full, "-c", mkdir(filepath.Join(dir, "cache")))
+	for _, a := range [][]string{{}, {"-o", "1000"}, {"-c", mkdir(filepath.Join(dir, "cache2"))}} {
+		res := run(append(append([]string{"cat", "-n", "2", "-s", "ssh://localhost" + broken}, a...), idxFile)...)
+		want := blob
+		if len(a) == 2 && a[0] == "-o" {
+			want = blob[1000:]
+		}
+		w.Emit(J{"ev": "cli", "fam": "ssh", "cmd": "cat from an ssh store whose server dies " + strings.Join(a, " "), "k": 0, "exit": res.exit, "hung": res.hung, "complete": bytes.Equal(res.stdout, want),
+			"valid_inputs": false, "out": res.last})
+	}
+	res := run("cat", "-n", "2", "-s", "ssh://localhost"+full, idxFile)
+	w.Emit(J{"ev": "cli", "fam": "ssh", "cmd": "cat from an ssh store", "k": 0, "exit": res.exit, "hung": res.hung, "complete": bytes.Equal(res.stdout, blob), "valid_inputs": true, "out": res.last})
 }
 
 // ------------------------------------------------------------------------------------------------ config
@@ -952,6 +1042,9 @@ func main() {
 		runFault(r, mkdir(filepath.Join(*dir, "fault")), *thorough)
 		runLocalFault(r, mkdir(filepath.Join(*dir, "localfault")))
 		runS3Fault(r, mkdir(filepath.Join(*dir, "s3fault")), *thorough)
+	}
+	if has("ssh") {
+		runSSH(r, mkdir(filepath.Join(*dir, "ssh")))
 	}
 	if has("config") {
 		runConfig(r, mkdir(filepath.Join(*dir, "config")))
